@@ -125,8 +125,52 @@ fn fmt_nodebug<T>(r: Result<T, ParseError>) -> String {
 '''
 
 MAIN_TAIL = '''
+// mt <gid> <rule hex> <threads> <hex inputs separated by ,>: every thread parses every input (in its
+// own shuffled order); answer: for each input the number of distinct results seen and one of them
+fn handle_mt(p: &[&str]) -> String {
+    let gid = p[1].to_string();
+    let rule = String::from_utf8(unhex(p[2])).unwrap();
+    let threads: usize = p[3].parse().unwrap();
+    let inputs: Vec<String> = p[4].split(',').map(|h| String::from_utf8(unhex(h)).unwrap()).collect();
+    let mut handles = Vec::new();
+    for t in 0..threads {
+        let gid = gid.clone();
+        let rule = rule.clone();
+        let inputs = inputs.clone();
+        handles.push(std::thread::Builder::new().stack_size(1 << 26).spawn(move || {
+            let n = inputs.len();
+            let mut order: Vec<usize> = (0..n).collect();
+            // a different permutation per thread (deterministic)
+            for i in 0..n { let j = (i * 7 + t * 13 + 3) % n; order.swap(i, j); }
+            let mut res = vec![String::new(); n];
+            for rep in 0..3 {
+                for &i in &order {
+                    hooks::TRACE.with(|t| t.borrow_mut().clear());
+                    hooks::HLOG.with(|t| t.borrow_mut().clear());
+                    let r = std::panic::catch_unwind(std::panic::AssertUnwindSafe(|| dispatch(&gid, &rule, &inputs[i], "rec")));
+                    let s = match r { Ok(Some(s)) => s, Ok(None) => "NOSUCH".to_string(), Err(_) => "PANIC".to_string() };
+                    if rep > 0 && res[i] != s { res[i] = format!("UNSTABLE:{}|{}", res[i], s); } else { res[i] = s; }
+                }
+            }
+            res
+        }).unwrap());
+    }
+    let all: Vec<Vec<String>> = handles.into_iter().map(|h| h.join().unwrap()).collect();
+    let mut out = Vec::new();
+    for i in 0..inputs.len() {
+        let mut distinct: Vec<&String> = all.iter().map(|r| &r[i]).collect();
+        distinct.sort();
+        distinct.dedup();
+        out.push(format!("{}:{}", distinct.len(), hooks::hex(distinct[0].as_bytes())));
+    }
+    out.join(",")
+}
+
 fn handle(line: &str) -> String {
     let p: Vec<&str> = line.split('\\t').collect();
+    if p.len() >= 5 && p[0] == "mt" {
+        return handle_mt(&p);
+    }
     if p.len() < 4 || p[0] != "parse" {
         return "BADREQ".to_string();
     }
@@ -169,7 +213,10 @@ def _shard_main(gs):
     parts = [MAIN_HEAD % HOOKS_RS]
     arms = []
     for g in gs:
-        parts.append("mod %s { use super::hooks; include!(\"%s.rs\"); }\n" % (g.gid, g.gid))
+        if g.meta.get("via_macro"):
+            parts.append("mod %s { use super::hooks; peginator_macro::peginate!(r#####\"%s\"#####); }\n" % (g.gid, g.text))
+        else:
+            parts.append("mod %s { use super::hooks; include!(\"%s.rs\"); }\n" % (g.gid, g.gid))
         nodebug = g.derives is not None and "Debug" not in g.derives
         for r in g.exports:
             ty = "%s::%s" % (g.gid, r if not _is_kw(r) else "r#" + r)
@@ -217,6 +264,8 @@ def build(grammars, key, nshards=16, profile="dev"):
             members.append("s%d" % i)
             with open(os.path.join(ws, "s%d" % i, "Cargo.toml"), "w") as f:
                 f.write('[package]\nname = "s%d"\nversion = "0.0.0"\nedition = "2021"\npublish = false\n\n[dependencies]\npeginator = { path = "%s/runtime" }\n' % (i, vp.REPO))
+                if any(g.meta.get("via_macro") for g in gs):
+                    f.write('peginator_macro = { path = "%s/macro" }\n' % vp.REPO)
             for g in gs:
                 with open(os.path.join(d, g.gid + ".rs"), "w", encoding="utf-8") as f:
                     f.write(g.code)
